@@ -369,16 +369,45 @@ def _strip(ob):
     return ob
 
 
+def _extreme_witnesses(ctx, inp, path, dbl, limit=6):
+    """a few more witnesses of the path: each numeric input pinned to the ends (and the middle) of its window, when feasible"""
+    out = []
+    for name, sp in inp.spec.items():
+        if sp['kind'] not in ('int', 'float') or _builtin_len(out) >= limit:
+            continue
+        v = inp.sym[name]
+        num = v.num if _isinstance(v, T.SFloat) else v
+        if not _isinstance(num, T.SInt):
+            continue
+        for val in (sp['hi'], sp['lo'], sp['hi'] // 2 + 1, sp['lo'] // 2 - 1):
+            c = T.icmp(num, val, '==')
+            if c is False:
+                continue
+            r, m = ctx.ex.check_in_path(path, T.lift_bool(c), *dbl, exact_timeout_ms=3000)
+            if r == 'sat':
+                conc = inp.concretise(m)
+                if inp.all_doubles(conc):
+                    out.append((m, conc))
+    return out
+
+
+_builtin_len = builtins.len
+
+
 def _concrete_probe(prop, cfg, ctx, inp, path, rec, dbl):
     w = _witness(ctx, inp, path, dbl)
-    if w is None:
-        return
-    m, conc = w
+    cands = ([w] if w is not None else []) + _extreme_witnesses(ctx, inp, path, dbl)
+    for m, conc in cands:
+        if _probe_one(prop, cfg, ctx, conc, rec):
+            return
+
+
+def _probe_one(prop, cfg, ctx, conc, rec):
     real_ob = run_real(prop, ctx.R, cfg, conc)
     try:
         bad = failed_names(eval_post(prop, cfg, conc, real_ob))
     except Exception as e:
-        return
+        return False
     if bad:
         kf = ctx.known.match(prop.ID, cfg, conc)
         v = dict(obligation='<concrete probe of an un-encoded path>', failed=bad, inputs=O.jsonable(conc), observed=O.jsonable(real_ob), cfg=cfg)
@@ -386,6 +415,8 @@ def _concrete_probe(prop, cfg, ctx, inp, path, rec, dbl):
             rec['known'].append(dict(id=kf['id'], what=kf['what'], example=v))
         else:
             rec['violations'].append(v)
+        return True
+    return False
 
 
 # ------------------------------------------------------------------------------------------------ replay
